@@ -69,8 +69,12 @@ def repo_hash():
 
 # ----------------------------------------------------------------------------
 # one run = one process lifetime
+_IN_CHILD = {'limit': None}
+
+
 def _child_main(fn, arg, wfd, limit):
     try:
+        _IN_CHILD['limit'] = limit
         faulthandler.enable()
         faulthandler.dump_traceback_later(limit, exit=True)
         import logging
@@ -95,10 +99,16 @@ def run_in_child(fn, arg, limit=60):
     """Execute fn(arg) in a freshly forked child of this (pristine) process and return its
     JSON result. Raises HarnessError on crash, timeout or harness exception."""
     rfd, wfd = os.pipe()
+    nested = _IN_CHILD['limit'] is not None
+    if nested:
+        # a watchdog thread does not survive fork but its lock would: disarm around the fork
+        faulthandler.cancel_dump_traceback_later()
     pid = os.fork()
     if pid == 0:
         os.close(rfd)
         _child_main(fn, arg, wfd, limit)
+    if nested:
+        faulthandler.dump_traceback_later(_IN_CHILD['limit'], exit=True)
     os.close(wfd)
     chunks = []
     deadline = time.time() + limit + 5
@@ -260,6 +270,7 @@ class Report(object):
 
     def finish(self, shrink_one, max_reports=6):
         """shrink_one(signature, plan) -> (plan, minimised, execs). Prints lines, returns exit code."""
+        max_reports = int(os.environ.get('VERIF_MAX_REPORTS', max_reports))
         for what, n in sorted(self.known_hits.items()):
             print('KNOWN-FINDING: property=%s %s (hit %d times)' % (self.prop, what, n))
         for sig, plan, found_by in self.violations[:max_reports]:
